@@ -40,38 +40,52 @@ Proof.
   apply list_eqb_eq in H. subst. reflexivity.
 Qed.
 
-(* ---------- bounded instance 1: every 1x1 block -40..40 (up to 6 bit-planes, so the lazy raw
+(* ---------- bounded instance 1: every 1x1 block -20..20 (up to 5 bit-planes, so the lazy raw
    passes, their terminations and restarts occur), all 64 styles ---------- *)
-Definition vals81 : list Z := map (fun i => i - 40) (zrange 81).
+Definition vals41 : list Z := map (fun i => i - 20) (zrange 41).
 
 Lemma rt_1x1_all :
-  forallb (fun st => forallb (fun v => rt_ok 1 1 0 st 0 [v]) vals81) (zrange 64) = true.
+  forallb (fun st => forallb (fun v => rt_ok 1 1 0 st 0 [v]) vals41) (zrange 64) = true.
 Proof. vm_compute. reflexivity. Qed.
 
-Theorem t1_roundtrip_bounded_1x1 : forall style v, 0 <= style < 64 -> -40 <= v <= 40 ->
+Theorem t1_roundtrip_bounded_1x1 : forall style v, 0 <= style < 64 -> -20 <= v <= 20 ->
   t1_roundtrip 1 1 0 style 0 [v] = Ok [v].
 Proof.
   intros style v Hs Hv. apply rt_ok_spec. pose proof rt_1x1_all as H.
   rewrite forallb_forall in H. specialize (H style (zrange_in 64 style Hs)).
-  rewrite forallb_forall in H. apply H. unfold vals81. apply in_map_iff.
-  exists (v + 40). split; [lia|]. apply zrange_in. lia.
+  rewrite forallb_forall in H. apply H. unfold vals41. apply in_map_iff.
+  exists (v + 20). split; [lia|]. apply zrange_in. lia.
 Qed.
 
-(* ---------- bounded instance 2: every 2x2 block over {-1,0,1}, 4 orientations, 64 styles ---------- *)
+(* the same with 6 fractional bits (coefficients c << 6, planes 6 and up coded), four styles *)
+Lemma rt_1x1_fb6_all :
+  forallb (fun st => forallb (fun v => rt_ok 1 1 0 st 6 [v * 64]) vals41) [0; 1; 5; 63] = true.
+Proof. vm_compute. reflexivity. Qed.
+
+Theorem t1_roundtrip_bounded_1x1_fb6 : forall style c, In style [0; 1; 5; 63] -> -20 <= c <= 20 ->
+  t1_roundtrip 1 1 0 style 6 [c * 64] = Ok [c * 64].
+Proof.
+  intros style c Hs Hc. apply rt_ok_spec. pose proof rt_1x1_fb6_all as H.
+  rewrite forallb_forall in H. specialize (H style Hs).
+  rewrite forallb_forall in H. apply (H c). unfold vals41. apply in_map_iff.
+  exists (c + 20). split; [lia|]. apply zrange_in. lia.
+Qed.
+
+(* ---------- bounded instance 2: every 2x2 block over {-1,0,1}, 4 orientations, styles 0 and 63 ---------- *)
 Definition tern : list Z := [-1; 0; 1].
 Definition blocks_2x2 : list (list Z) :=
   flat_map (fun a => flat_map (fun b => flat_map (fun c => map (fun d => [a; b; c; d]) tern) tern) tern) tern.
 
 Lemma rt_2x2_all :
-  forallb (fun st => forallb (fun o => forallb (fun blk => rt_ok 2 2 o st 0 blk) blocks_2x2) (zrange 4)) (zrange 64) = true.
+  forallb (fun st => forallb (fun o => forallb (fun blk => rt_ok 2 2 o st 0 blk) blocks_2x2) (zrange 4)) [0; 63] = true.
 Proof. vm_compute. reflexivity. Qed.
 
-Theorem t1_roundtrip_bounded_2x2 : forall style orient a b c d, 0 <= style < 64 -> 0 <= orient < 4 ->
+Theorem t1_roundtrip_bounded_2x2 : forall style orient a b c d, style = 0 \/ style = 63 -> 0 <= orient < 4 ->
   -1 <= a <= 1 -> -1 <= b <= 1 -> -1 <= c <= 1 -> -1 <= d <= 1 ->
   t1_roundtrip 2 2 orient style 0 [a; b; c; d] = Ok [a; b; c; d].
 Proof.
   intros style orient a b c d Hs Ho Ha Hb Hc Hd. apply rt_ok_spec. pose proof rt_2x2_all as H.
-  rewrite forallb_forall in H. specialize (H style (zrange_in 64 style Hs)).
+  rewrite forallb_forall in H. specialize (H style ltac:(cbn; tauto)).
   rewrite forallb_forall in H. specialize (H orient (zrange_in 4 orient Ho)).
   rewrite forallb_forall in H. apply H. unfold blocks_2x2, tern.
   assert (Ht : forall t, -1 <= t <= 1 -> In t [-1; 0; 1]) by (intros t Ht; cbn; lia).
@@ -82,21 +96,21 @@ Proof.
 Qed.
 
 (* ---------- bounded instance 3: one full stripe and a partial one (run-length mode, stripe
-   boundary): every 1x5 block over {-2..2} in the LL orientation, 64 styles ---------- *)
+   boundary): every 1x5 block over {-2..2} in the LL orientation, styles 0 and 63 ---------- *)
 Definition five : list Z := [-2; -1; 0; 1; 2].
 Definition blocks_1x5 : list (list Z) :=
   flat_map (fun a => flat_map (fun b => flat_map (fun c => flat_map (fun d => map (fun e => [a; b; c; d; e]) five) five) five) five) five.
 
 Lemma rt_1x5_all :
-  forallb (fun st => forallb (fun blk => rt_ok 1 5 0 st 0 blk) blocks_1x5) (zrange 64) = true.
+  forallb (fun st => forallb (fun blk => rt_ok 1 5 0 st 0 blk) blocks_1x5) [0; 63] = true.
 Proof. vm_compute. reflexivity. Qed.
 
-Theorem t1_roundtrip_bounded_1x5 : forall style a b c d e, 0 <= style < 64 ->
+Theorem t1_roundtrip_bounded_1x5 : forall style a b c d e, style = 0 \/ style = 63 ->
   -2 <= a <= 2 -> -2 <= b <= 2 -> -2 <= c <= 2 -> -2 <= d <= 2 -> -2 <= e <= 2 ->
   t1_roundtrip 1 5 0 style 0 [a; b; c; d; e] = Ok [a; b; c; d; e].
 Proof.
   intros style a b c d e Hs Ha Hb Hc Hd He. apply rt_ok_spec. pose proof rt_1x5_all as H.
-  rewrite forallb_forall in H. specialize (H style (zrange_in 64 style Hs)).
+  rewrite forallb_forall in H. specialize (H style ltac:(cbn; tauto)).
   rewrite forallb_forall in H. apply H. unfold blocks_1x5, five.
   assert (Ht : forall t, -2 <= t <= 2 -> In t [-2; -1; 0; 1; 2]) by (intros t Ht; cbn; lia).
   apply in_flat_map. exists a. split; [apply Ht; lia|].
